@@ -23,7 +23,7 @@ use inetnum::addr::Prefix;
 use inetnum::asn::Asn;
 use roto::{Function, Impl, Library, List, NoCtx, Package, RotoString, Runtime, TypedFunc, Val, Value, Verdict, location};
 
-use crate::host::{self, Cp, Trk, Trk1, TrkZ};
+use crate::host::{self, Cp, Trk, Trk1, TrkZ, Za8};
 use crate::jsonw::J;
 use crate::rng::{Rng, hash_str};
 
@@ -584,6 +584,14 @@ impl Term for Val<Cp> {
     fn register_methods(lib: &mut Library) {
         val_methods::<Cp>(lib, "Cp");
     }
+}
+
+impl Term for Val<Za8> {
+    fn desc() -> Desc { Desc::Val("Za8") }
+    fn n_edges() -> usize { 1 }
+    fn generate(_: &mut Rng, _: usize) -> Self { Val(Za8) }
+    fn same(_: &Self, _: &Self) -> bool { true }
+    fn show(_: &Self) -> String { "Za8".into() }
 }
 
 impl Term for Val<TrkZ> {
@@ -1376,7 +1384,7 @@ type S = RotoString;
 
 pub fn catalogue() -> Vec<TermEntry> {
     let mut v: Vec<TermEntry> = Vec::new();
-    for part in [part_ints::part, part_leaves::part, part_vals::part, part_ctors::part, part_option::part, part_list::part, part_result::part, part_verdict::part, part_depth2::part, part_depth3::part, part_mixed_align::part] {
+    for part in [part_ints::part, part_leaves::part, part_vals::part, part_ctors::part, part_option::part, part_list::part, part_result::part, part_verdict::part, part_depth2::part, part_depth3::part, part_mixed_align::part, part_overaligned_zst::part] {
         part(&mut v);
     }
     // terms are pairwise distinct: "same term" is index equality
@@ -1464,6 +1472,17 @@ catalogue_part! { part_verdict:
         Verdict<S, i32> => "Verdict[String, i32]", Verdict<u8, u64> => "Verdict[u8, u64]",
         Verdict<bool, Prefix> => "Verdict[bool, Prefix]", Verdict<Val<Trk>, Val<Cp>> => "Verdict[Trk, Cp]",
         Verdict<(), Val<TrkZ>> => "Verdict[(), TrkZ]",
+    }
+}
+// a zero-sized payload with alignment 8 (only nested: a zero-sized PARAMETER is a known finding):
+// it adds no bytes but moves the offsets and sizes of the enums around it
+catalogue_part! { part_overaligned_zst:
+    full {}
+    lite {
+        Option<Result<Val<Za8>, u32>> => "Option[Result[Za8, u32]]",
+        List<Option<Val<Za8>>> => "List[Option[Za8]]",
+        Result<Option<Val<Za8>>, u8> => "Result[Option[Za8], u8]",
+        Verdict<u8, Option<Val<Za8>>> => "Verdict[u8, Option[Za8]]",
     }
 }
 catalogue_part! { part_depth2:
